@@ -120,6 +120,19 @@ CLAIMED = {
         "note": TRUSTED,
         "technique": "static analysis: dominance / loop-membership placement rules, operand provenance chains, constant-aggregate comparison over MIR",
     },
+    "C12": {
+        "text": "Static decision tables and placement rules: over the lookup state {absent, canonical, alias}, insert_canonical = "
+                "{insert, reuse, Err(AlreadyAlias)}, insert_alias = {insert for the given canonical, Err(AlreadyCanonical), no-op}, "
+                "ensure = resolve-or-insert, resolve / as_canonical return the canonical member on the alias arm, get builds "
+                "Alias{canonical} from the stored canonical; records are written only by the *_impl functions after an absent "
+                "lookup of the same key; typed names are minted only inside intern.rs; account / commodity declarations register "
+                "the canonical name and - on every path, for every detail, unfiltered - each alias for that canonical, with both "
+                "errors propagated; store facades forward 1:1; posting accounts and amount commodities are resolved through the "
+                "store.  Equality of reports under alias substitution is not decided.",
+        "design_ref": "DESIGN.md §4 C12",
+        "note": TRUSTED,
+        "technique": "static analysis: decision tables over lookup-state atoms in force, who-may-call / who-may-construct, loop must-pass rules over MIR",
+    },
     "C13": {
         "text": "Static, all-sites: every place where HashMap/HashSet iteration order enters the three crates "
                 "(std iterators, the local wrapper types AmountIter / intern::Iter, local functions returning them, "
